@@ -488,6 +488,10 @@ type builtImage struct {
 	streamOff int
 	valid     bool   // the shape itself is installable
 	shape     string // label
+	// nested: where an extra tar entry whose BASE name is package.yaml sits in a
+	// sub-directory ("" = none). Only the root package.yaml is the package stream.
+	nested       string
+	nestedBefore bool // the nested entry precedes the root one in the tar the backend reads
 }
 
 func assemble(layers []layerSpec) (gcrv1.Image, []builtLayer) {
@@ -575,7 +579,58 @@ func genImage(t *rapid.T, s, decoy []byte) builtImage {
 		}
 		valid = false
 	}
+	// Extra entries whose base name is package.yaml, in sub-directories. They are
+	// not the package stream: what a revision installs is what the ROOT
+	// package.yaml declares, never anything from another path.
+	nested, nestedBefore := "", false
+	if valid {
+		mode := rapid.SampledFrom([]string{"", "", "", "before-root", "before-root", "after-root", "upper-layer", "upper-layer", "lower-layer", "only-nested"}).Draw(t, "nested")
+		if mode == "only-nested" && shape == "plain+override" {
+			mode = "" // a lower layer holds another root package.yaml there: that one would legitimately be the stream
+		}
+		if mode != "" {
+			nf := fileSpec{Name: rapid.SampledFrom([]string{"examples/package.yaml", "a/b/package.yaml", "usr/share/charts/package.yaml"}).Draw(t, "nestedName")}
+			content := rapid.SampledFrom([]string{"valid-other-package", "valid-other-package", "unrelated-yaml", "garbage"}).Draw(t, "nestedContent")
+			switch content {
+			case "valid-other-package":
+				nf.Data = decoy
+			case "unrelated-yaml":
+				nf.Data = []byte("name: some-chart\nversion: 1.2.3\ndependencies:\n- name: x\n")
+			default:
+				nf.Data = junk
+			}
+			annotated := layers[ti].Annotation != ""
+			rootAt := -1
+			for i, f := range layers[ti].Files {
+				if f.Name == streamFile {
+					rootAt = i
+				}
+			}
+			ins := func(files []fileSpec, at int, f fileSpec) []fileSpec {
+				out := append([]fileSpec{}, files[:at]...)
+				out = append(out, f)
+				return append(out, files[at:]...)
+			}
+			switch mode {
+			case "before-root":
+				layers[ti].Files = ins(layers[ti].Files, rootAt, nf)
+				nestedBefore = true
+			case "after-root":
+				layers[ti].Files = ins(layers[ti].Files, rootAt+1, nf)
+			case "upper-layer":
+				layers = append(layers, layerSpec{Files: []fileSpec{{Name: "usr/bin/tool", Data: junk}, nf}})
+				nestedBefore = !annotated // flattening emits upper layers first
+			case "lower-layer":
+				layers = append([]layerSpec{{Files: []fileSpec{nf}}}, layers...)
+				ti++
+			case "only-nested":
+				layers[ti].Files[rootAt].Name = nf.Name
+				valid = false
+			}
+			nested = mode + ":" + content
+		}
+	}
 	img, built := assemble(layers)
-	bi := builtImage{img: img, target: built[ti].digest, streamOff: built[ti].streamOff[streamFile], valid: valid, shape: shape}
+	bi := builtImage{img: img, target: built[ti].digest, streamOff: built[ti].streamOff[streamFile], valid: valid, shape: shape, nested: nested, nestedBefore: nestedBefore}
 	return bi
 }
